@@ -122,7 +122,7 @@ def check(ctx: Ctx) -> None:
             return Mx
         if name == "min" and len(node.args) == 1 and norm(node.args[0]) == "w":
             return Mn
-        if name in ("array", "list", "range"):
+        if name in ("array", "list", "range", "arange", "linspace"):
             return sp.Symbol("k_index", positive=True)
         if name == "log":
             r = model.resolve(fi.module, "log")
